@@ -102,13 +102,10 @@ Proof.
     destruct (assoc x es) as [[d|es']|]; [|apply err_sim|].
     + apply finish_sim. apply (run_hops_ab _ _ _ false); [exact Hs|reflexivity].
     + apply finish_sim. apply (run_hops_ab _ _ _ false); [exact Hs|reflexivity].
-  - (* r+b *)
-    apply negb_true_iff in Hm. unfold rpb_creates, m_is_dir, get_node in Hm.
-    unfold m_open, p_open, get_node. rewrite (resolve_lookup p t) in *.
-    destruct (resolve p t) as [[d|es]|e]; [|apply err_sim|].
-    + apply finish_sim. apply run_hops_sim. exact Hs.
-    + destruct (unsnoc p) as [[pp x]|]; [|apply err_sim].
-      destruct (lookup pp t) as [[d|es]|]; [apply err_sim|discriminate|apply err_sim].
+  - (* r+b: on a missing file both fail (since the repair of F06) *)
+    unfold m_open, p_open, get_node. rewrite (resolve_lookup p t).
+    destruct (resolve p t) as [[d|es]|e]; [|apply err_sim|apply err_sim].
+    apply finish_sim. apply run_hops_sim. exact Hs.
   - apply err_sim.
 Qed.
 
@@ -164,13 +161,10 @@ Proof.
       rewrite (mkdir_parents_enotdir _ _ eok He). apply step_agree_refl.
 Qed.
 
-Lemma ren_bad_eq t a b : ren_bad t a b = rename_bad t a b.
-Proof. reflexivity. Qed.
-
 (* ---- one operation ---- *)
-Theorem api_step_sim t o : wf t -> api_ok t o = true -> step_sim (m_run t o) (p_run t o).
+Theorem api_step_sim t o : api_ok t o = true -> step_sim (m_run t o) (p_run t o).
 Proof.
-  intros W H. destruct o as [p|p|p|p par eok|p|p|p|p|a b|p m s]; cbn [m_run p_run api_ok] in *.
+  intros H. destruct o as [p|p|p|p par eok|p|p|p|p|a b|p m s]; cbn [m_run p_run api_ok] in *.
   - rewrite exists_agree. reflexivity.
   - rewrite is_dir_agree. reflexivity.
   - rewrite is_file_agree. reflexivity.
@@ -179,25 +173,24 @@ Proof.
   - apply step_agree_sim, unlink_agree.
   - rewrite list_agree. reflexivity.
   - apply step_sim_intro; [apply res_eq_blank, stat_agree|reflexivity].
-  - unfold rename_ok in H. repeat (apply andb_true_iff in H as [H ?]).
-    repeat match goal with Hn : negb _ = true |- _ => apply negb_true_iff in Hn end.
-    apply step_agree_sim, rename_agree; auto.
-    + destruct a; [discriminate|discriminate].
+  - unfold rename_ok in H. apply andb_true_iff in H as [H1 H2].
+    apply negb_true_iff in H1, H2.
+    apply step_agree_sim, rename_agree.
+    + destruct a; discriminate.
     + unfold m_exists, get_node in *. destruct (lookup b t); [discriminate|reflexivity].
   - apply open_sim. exact H.
 Qed.
 
 (* ---- every sequence ---- *)
-Theorem api_seq_sim : forall os t, wf t -> api_oks t os = true ->
+Theorem api_seq_sim : forall os t, api_oks t os = true ->
   map blank_step (run_ops m_run t os) = map blank_step (run_ops p_run t os).
 Proof.
-  induction os as [|o r IH]; intros t W H; [reflexivity|].
+  induction os as [|o r IH]; intros t H; [reflexivity|].
   cbn [api_oks] in H. apply andb_true_iff in H as [Ho Hr].
-  pose proof (api_step_sim t o W Ho) as S. unfold step_sim, blank_step in S.
-  pose proof (m_run_wf t o W) as W'.
+  pose proof (api_step_sim t o Ho) as S. unfold step_sim, blank_step in S.
   cbn [run_ops]. destruct (m_run t o) as [r1 t1], (p_run t o) as [r2 t2]. cbn [fst snd] in *.
   injection S as Hb Ht. subst t2. cbn [map]. unfold blank_step at 1 3. cbn [fst snd].
-  rewrite Hb, (IH t1 W' Hr). reflexivity.
+  rewrite Hb, (IH t1 Hr). reflexivity.
 Qed.
 
 (* ---- the matrix, cell by cell (documentation: the table `hop_cell_ok` really is this one) ---- *)
@@ -263,12 +256,11 @@ Theorem ab_seek_write_cell_refuted :
     lookup p (snd (p_run t (Open p AB s))) = Some (File [120; 121; 122; 81]).
 Proof. exists wt0, [ng], [HSeek 0; HWrite [81]]. split; [exact wt0_wf|]. repeat split; vm_compute; reflexivity. Qed.
 
-(* r+b on a missing file (F06 at the API) *)
-Theorem rpb_missing_cell_refuted :
-  exists t p, wf t /\ open_ok t p RPB [] = false /\
-    m_run t (Open p RPB []) = (Ok (VOpen []), upd [] (on_dir (fun es => es ++ [(nm, File [])])) t) /\
-    p_run t (Open p RPB []) = (Err ENOENT, t).
-Proof. exists wt0, [nm]. split; [exact wt0_wf|]. repeat split; vm_compute; reflexivity. Qed.
+(* r+b on a missing file (was F06 at the API): inside the domain now, both fail, nothing is created *)
+Example former_rpb_missing_cell_agrees :
+  open_ok wt0 [nm] RPB [] = true /\
+  m_run wt0 (Open [nm] RPB []) = (Err ENOENT, wt0) /\ p_run wt0 (Open [nm] RPB []) = (Err ENOENT, wt0).
+Proof. repeat split; vm_compute; reflexivity. Qed.
 
 (* rename over an existing entry of the other type: replaced in memory, EISDIR/ENOTDIR on disk *)
 Theorem rename_over_existing_refuted :
@@ -337,16 +329,16 @@ End Ext.
 
 (* three backends: MemoryPathIO, PathIO, and any backend that returns PathIO's outcomes (AsyncPathIO,
    by fs_backends_equal over the regenerated table) *)
-Theorem three_backends_agree_partial : forall a_run : node -> fsop -> result * node,
+Theorem three_backends_agree : forall a_run : node -> fsop -> result * node,
   (forall t o, a_run t o = p_run t o) ->
-  forall cs rf t, wf t -> shapes_ok (rf, t) cs = true ->
+  forall cs rf t, shapes_ok cs = true ->
     srv_run m_run (rf, t) cs = srv_run p_run (rf, t) cs
     /\ srv_run a_run (rf, t) cs = srv_run p_run (rf, t) cs
     /\ inert_from t (srv_run m_run (rf, t) cs)
     /\ inert_from t (srv_run p_run (rf, t) cs)
     /\ inert_from t (srv_run a_run (rf, t) cs).
 Proof.
-  intros a_run Ha cs rf t W S. destruct (backends_agree_partial cs rf t W S) as [E [I1 I2]].
+  intros a_run Ha cs rf t S. destruct (backends_agree cs rf t S) as [E [I1 I2]].
   pose proof (srv_run_ext a_run p_run Ha cs (rf, t)) as Ea.
   repeat split; try assumption. rewrite Ea. exact I2.
 Qed.
